@@ -1206,6 +1206,12 @@ fn main() {
     std::fs::create_dir_all(&outdir).unwrap();
     let mk = |n: &str| std::io::BufWriter::new(std::fs::File::create(format!("{}/{}", outdir, n)).unwrap());
     let mut out = Out { req: mk("req.txt"), imp: mk("impl.txt"), ora: mk("oracle.txt"), lines: 0 };
+    // the synthetic resolver tables, announced to the model: its entry-point model (`Res.entryInfo`) answers from them
+    for k in 0..2 {
+        for (n, sz, al, un) in synthetic_table(k) {
+            out.emit(&format!("tbl {} {} {} {} {}", k, n.replace(' ', "_"), sz, al, if un { 1 } else { 0 }), "--");
+        }
+    }
     let mut stats = Stats::default();
     if mode == "random" {
         let mut rng = Rng::new(seed);
